@@ -22,6 +22,15 @@ theorem calcWork_antitone (c₁ c₂ : Nat)
         Int.mul_le_mul_of_nonneg_left (by omega) hq
     _ ≤ 2 ^ 256 := Int.ediv_mul_le _ (by omega)
 
+/-- The positivity hypothesis of `calcWork_antitone` cannot be dropped: across the sign boundary the statement
+"work never increases when the target increases" is false of `CalcWork`, because a non-positive target has
+work 0 by definition (`if difficultyNum.Sign() <= 0 { return big.NewInt(0) }`) while the smallest positive
+target has the largest work.  Witness: compact 0 decodes to target 0 (work 0) and compact 0x01010000 to target 1
+(work 2^255).  Non-positive targets are not valid block targets; the harness compares these inputs with the model
+and the fork-choice theorems (`td_antitone`) carry the same hypothesis. -/
+theorem calcWork_antitone_needs_positive :
+    compactToBig 0 ≤ compactToBig 0x01010000 ∧ calcWork 0 < calcWork 0x01010000 := by decide
+
 /-- Work of a non-positive target is zero, so it never outranks a positive target. -/
 theorem calcWork_nonpos (c : Nat) (h : compactToBig c ≤ 0) : calcWork c = 0 := by
   unfold calcWork; simp [h]
